@@ -70,10 +70,16 @@ def features(s):
     return f
 
 
-def sig_of(detail, reason, cmd):
+def sig_of(detail, reason, cmd, read_refused=False):
+    """signature = command kind : obligation of the monitor that failed (: input class).  The input class
+    `config-read-refused` marks a command during which the environment refused a blob read (fault kind read)."""
     d = (detail or "").strip('"') or reason
     op = cmd["op"] if cmd else "setup"
-    return "x03:%s:%s" % (op, d)
+    return "x03:%s:%s%s" % (op, d, ":config-read-refused" if read_refused else "")
+
+
+def read_fault(s):
+    return s["fault"]["cmd"] > 0 and s["fault"].get("kind") == "read" and s["tkind"] == "reg"
 
 
 def run(ctx):
@@ -92,7 +98,11 @@ def run(ctx):
     trans = sum(r["generated"] for r in mc)
     # model sanity: the as-found swallowing of --desc-platform and three other designs must be noticed
     sanity = {}
-    for cfg in ("X03_mc_known_descplat.cfg", "X03_mc_sw_putfirst.cfg", "X03_mc_sw_dedup.cfg", "X03_mc_sw_delone.cfg"):
+    mc.append(ctx.tlc("IndexEditMC", "X03_mc_platlookup_fixed.cfg", label="repaired platform lookup, refused reads"))
+    states = sum(r["distinct"] for r in mc)
+    trans = sum(r["generated"] for r in mc)
+    for cfg in ("X03_mc_known_descplat.cfg", "X03_mc_known_platlookup.cfg", "X03_mc_sw_putfirst.cfg", "X03_mc_sw_dedup.cfg",
+                "X03_mc_sw_delone.cfg"):
         r = ctx.tlc("IndexEditMC", cfg, allow_violation=True, label="expected counterexample " + cfg, record=False)
         if not r["violated"]:
             raise vlib.ToolError("model sanity: %s did not violate the monitor" % cfg)
@@ -133,15 +143,17 @@ def run(ctx):
             elif len(s["cmds"]) == 2 and rng.random() < 0.35:
                 keep.append(s)
         scns = keep
-    # the known finding X03-1 rejects every trace with an unparsable --desc-platform: keep a few
+    # the known findings X03-1 / X03-2 reject traces with an unparsable --desc-platform / a refused config
+    # read: keep a few of each
     cap = 12 if thorough else 5
-    nbad = 0
+    nbad = {"d": 0, "r": 0}
     dropped_known = 0
     sel = []
     for s in scns:
-        if any(bad_dplat(world, c) for c in s["cmds"]):
-            nbad += 1
-            if nbad > cap:
+        k = "d" if any(bad_dplat(world, c) for c in s["cmds"]) else "r" if read_fault(s) else None
+        if k:
+            nbad[k] += 1
+            if nbad[k] > cap:
                 dropped_known += 1
                 continue
         sel.append(s)
@@ -221,7 +233,8 @@ def run(ctx):
 
     # traces of the known finding X03-1 (unparsable --desc-platform) are validated in a batch of their own, so
     # that the large batch passes in one TLC run
-    kf = [t for t in traces if any(bad_dplat(world, c) for c in t["scenario"]["cmds"])]
+    # (the same for X03-2: a refused config read)
+    kf = [t for t in traces if any(bad_dplat(world, c) for c in t["scenario"]["cmds"]) or read_fault(t["scenario"])]
     rest = [t for t in traces if t not in kf]
     accepted, rejected = ctx.validate_batch("IndexEditTrace", "X03_trace.cfg", rest, timeout=3000, max_reports=40)
     if kf:
@@ -232,10 +245,14 @@ def run(ctx):
         t = r["trace"]
         evs = t["events"]
         cmd = None
+        ncmd = 0
         for e in evs[:max(r["line"], 0) + 1]:
             if e["ev"] == "cmd":
                 cmd = e
-        sig = sig_of(r["detail"], r["reason"], cmd)
+                ncmd += 1
+        done = next((e for e in evs[max(r["line"], 0):] if e["ev"] == "done"), {})
+        rr = read_fault(t["scenario"]) and t["scenario"]["fault"]["cmd"] == ncmd and done.get("faulted") == 1
+        sig = sig_of(r["detail"], r["reason"], cmd, rr)
         what = "%s at event %d (%s) of trace %s: regctl %s" % (
             (r["detail"] or r["reason"]), r["line"], (r["event"] or {}).get("ev"), t["id"], (cmd or {}).get("argv", ""))
         ctx.report(sig, what, {"scenario": t["scenario"], "header": t["header"], "events": evs, "rejected_at": r["line"],
